@@ -6,38 +6,50 @@ fault catalogue (mc/faults.py) is applied at every applicable site of every stat
 faulted spec must be refused with InvalidSpec.
 """
 import collections
+import os
 
 from mc import explore, render, impl, faults, profiles, paramspace
 from mc.explore import viol
 
 PROP = 'C01'
+BASE_DEPTH = [3]
 
 
 def gather_states(tier, run, budget=None):
-    """All states of all family profiles, deduplicated globally. Returns [(model, trace, profile_name)]."""
+    """All states of all family profiles, deduplicated globally.
+    Returns [(model, trace, profile_name, flags, depth)] - flags: union of the machine flags of the profiles that
+    reach the state, depth: smallest BFS depth at which it is reached."""
     k = 2 if tier == 'quick' else 3
-    budget = budget or (90 if tier == 'quick' else 260)
+    budget = budget or int(os.environ.get('VERIF_STATE_BUDGET', '0')) or (1000 if tier == 'quick' else 600)
     seen = {}
     out = []
     prof_info = {}
-    for fams in profiles.combos(k):
+    plan = [(fams, budget) for fams in profiles.combos(k)]
+    if tier == 'thorough':
+        # every pair of families deeply, every triple to the completed depth within the smaller budget
+        plan = [(fams, 5000) for fams in profiles.combos(2)] + plan
+    for fams, budget_ in plan:
         p = profiles.make_profile(fams)
-        r = profiles.explore_budget(p, budget)
+        r = profiles.explore_budget(p, budget_)
         if r is None:
             raise explore.InternalError('profile %s has no complete depth within budget' % p.name)
         run.add_bfs(p.name, r)
         new = 0
         for s, tr, d in r.states:
             if s not in seen:
-                seen[s] = p.name
-                out.append((s, tr, p.name))
+                seen[s] = len(out)
+                out.append([s, tr, p.name, set(p.families), d])
                 new += 1
+            else:
+                e = out[seen[s]]
+                e[3] |= p.families
+                e[4] = min(e[4], d)
         prof_info[p.name] = {'states': r.n, 'new': new, 'depth': r.depth_completed}
     run.bounds['profiles'] = len(prof_info)
     run.bounds['family_combination_size'] = k
     run.bounds['per_profile_state_budget'] = budget
     run.bounds['profile_depths'] = {k_: v['depth'] for k_, v in prof_info.items()}
-    return out
+    return [(s, tr, pn, tuple(sorted(fl)), d) for s, tr, pn, fl, d in out]
 
 
 def judge_valid(specs, out):
@@ -67,7 +79,7 @@ def judge_fault(rule, kind, label, specs, out):
 
 
 def task(item):
-    model, trace, pname = item
+    model, trace, pname, flags, depth = item
     specs = render.render(model)
     oc = collections.Counter()
     v = []
@@ -78,7 +90,7 @@ def task(item):
     if x:
         x['inputs']['trace'] = list(trace)
         v.append(x)
-    for rule, kind, label, fspecs in faults.faults(model, light=True):
+    for rule, kind, label, fspecs in faults.faults(model, flags, base=depth <= BASE_DEPTH[0]):
         if fspecs is None:
             continue
         n += 1
@@ -105,7 +117,9 @@ def ptask(item):
 def run(tier, seed):
     r = explore.Run(PROP, tier, seed)
     states = gather_states(tier, r)
-    for s, tr, pn in states[:3] + states[len(states) // 2:len(states) // 2 + 2] + states[-2:]:
+    BASE_DEPTH[0] = 3 if tier == 'quick' else 4
+    r.bounds['context_free_faults_applied_up_to_depth'] = BASE_DEPTH[0]
+    for s, tr, pn, fl, d in states[:3] + states[len(states) // 2:len(states) // 2 + 2] + states[-2:]:
         r.sample({'profile': pn, 'trace': list(tr), 'specs': render.render(s)})
     r.run_tasks(task, states, budget=120)
     pitems = list(paramspace.items(tier))
